@@ -184,16 +184,15 @@ func interleavedGet(c cacheUnderTest, backend string) {
 	_, err := c.Cache(k, &symReader{data: v1, failAt: -1}, now.Add(time.Hour), vmeta{Ver: 1})
 	vAssert(err == nil, "c01."+backend+".store-failed")
 	kind := symChoice(2)
-	vInterpose(func() {
+	vSecond(func() {
 		if kind == 0 {
 			c.Cache(k, &symReader{data: v2, failAt: -1}, now.Add(time.Hour), vmeta{Ver: 2})
 		} else {
 			c.Delete(k)
 		}
-	}, vParam("interpose", 1))
+	})
 	h, gerr := c.Get(k)
-	vInterpose(nil, 0)
-	if vInterposed() > 0 {
+	if vSecondDone() {
 		vReach("writer-ran-inside-get")
 	}
 	if gerr != nil {
